@@ -105,24 +105,31 @@ Proof.
   - do 8 (destruct fuel as [|fuel]; [destruct fx; vm_compute; eauto|]). lia.
 Qed.
 
-(* for every fuel the model is still inside performReassignments: the real loop never ends *)
-Theorem sticky_refuted_terminates :
-  exists o ms ts, wf_members ms /\ wf_topics ts /\
-    forall fx fuel, exists p, sticky_plan fuel fx o ms ts = SFuel p.
+Lemma w2_always_fuel : forall fx fuel, exists p, sticky_plan fuel fx o_empty w2_members w2_topics = SFuel p.
 Proof.
-  exists o_empty, w2_members, w2_topics. split; [apply w2_wf|]. split; [apply w2_wf|].
   intros fx fuel. unfold sticky_plan, sticky_plan_full. rewrite w2_prep_eq. unfold w2_prep.
   destruct (w2_out_of_fuel fx fuel) as [s [pf E]]. unfold w2_pr, w2_prep in E. rewrite E.
   unfold sticky_finish, balance_finish. cbn [b_end p_res]. eauto.
 Qed.
 
+(* for every fuel the model is still inside performReassignments: the real loop never ends *)
+Theorem sticky_refuted_terminates :
+  exists o ms ts, wf_members ms /\ wf_topics ts /\
+    forall fx fuel, exists p, sticky_plan fuel fx o ms ts = SFuel p.
+Proof.
+  exists o_empty, w2_members, w2_topics. split; [apply w2_wf|]. split; [apply w2_wf|]. exact w2_always_fuel.
+Qed.
+
+Lemma w2_ud : forall mm, In mm w2_members -> m_ud mm <> UDErr.
+Proof.
+  intros mm Hm. unfold w2_members in Hm. simpl In in Hm. repeat (destruct Hm as [<-|Hm]; [cbn [m_ud]; discriminate|]). contradiction.
+Qed.
+
 Theorem sticky_full_statement_refuted : ~ sticky_full_statement.
 Proof.
-  intro H. destruct (H o_empty w2_members w2_topics (proj1 w2_wf) (proj2 w2_wf)) as [fuel [p [E _]]].
-  - intros mm Hm. repeat (destruct Hm as [<-|Hm]; [discriminate|]). contradiction.
-  - unfold sticky_plan, sticky_plan_full in E. rewrite w2_prep_eq in E. unfold w2_prep in E.
-    destruct (w2_out_of_fuel true fuel) as [s [pf E2]]. unfold w2_pr, w2_prep in E2. rewrite E2 in E.
-    unfold sticky_finish, balance_finish in E. cbn [b_end p_res] in E. discriminate.
+  intro H. unfold sticky_full_statement in H.
+  destruct (H o_empty w2_members w2_topics (proj1 w2_wf) (proj2 w2_wf) w2_ud) as [fuel [p [E _]]].
+  destruct (w2_always_fuel true fuel) as [p' E']. pose proof (eq_trans (eq_sym E') E) as X. discriminate X.
 Qed.
 
 (* ---- hypotheses of the validity theorems are satisfiable on non-trivial inputs ---- *)
